@@ -26,6 +26,8 @@ var c05ConnectTo = []string{
 	"::redirect.example:", ":8080::9090", "proxy-a.example:8080:redirect.example:8080", "proxy-b.example:8443:redirect.example:8443",
 	"socks-s.example:1080:redirect.example:1080", ":80:redirect.example:8081", "keep.other.example::other.example:", "HOSTTOK:80:redirect.example:7000",
 	"HOSTTOK::redirect.example:", ":443:redirect.example:8443", "10.0.2.1:8080:redirect.example:8080",
+	// "keep as it is" rules: they redirect nothing, but being the first match they shield an address from later rules
+	"HOSTTOK:80::", "HOSTTOK:::", "proxy-a.example:8080::", ":8080::", ":::",
 }
 
 type c05Extra struct {
